@@ -1,5 +1,6 @@
 import Driver.Common
 import Model.Provider
+import Model.Fault
 namespace Driver.Provider
 open Lean Driver Model Model.Provider
 
@@ -64,12 +65,22 @@ def initStore (j : Json) : Except String Store := do
            | .ok (.arr a) => some (a.toList.filterMap fun x => x.getStr?.toOption |>.map (·.toList))
            | _ => none }
 
+def doneOf (j : Json) : Option (List String) :=
+  match j.getObjVal? "done" with
+  | .ok (.arr a) => some (a.toList.filterMap fun x => x.getStr?.toOption)
+  | _ => none
+
 def handle : Handler := fun j => do
   let s0 ← initStore (← j.getObjVal? "cfg")
-  let ops ← (← getArr j "ops").toList.mapM parseOp
-  let (s, outs) := ops.foldl (fun (acc : Store × List Json) op =>
-    let (s', o) := step acc.1 op
-    (s', acc.2 ++ [outJson o])) (s0, [])
+  let ops ← (← getArr j "ops").toList.mapM fun o => do pure ((← parseOp o), doneOf o)
+  let (s, outs) := ops.foldl (fun (acc : Store × List Json) (op, done) =>
+    match done with
+    | some d =>      -- C19: the request hit a storage fault after the events `d` completed
+      let s' := stepFault acc.1 op (Model.Fault.progress d)
+      (s', acc.2 ++ [Json.mkObj [("fault", true), ("done", Json.arr (d.map Json.str).toArray), ("store", storeJson s')]])
+    | none =>
+      let (s', o) := step acc.1 op
+      (s', acc.2 ++ [outJson o])) (s0, [])
   pure (Json.mkObj [("outs", Json.arr outs.toArray), ("store", storeJson s)])
 
 end Driver.Provider
